@@ -179,11 +179,11 @@ def verify_contract(reg: Registry, c: Contract, cfg: Config) -> FunctionReport:
                             detail=f"exception {raised.cls.name}{_args_repr(raised)} escapes; allowed: {c.raises}")
             for k, cl in c.raises_ensures.items():
                 it.cover_ctx = f"{short}::post-exc:{k}"
-                path.oblige(f"{short}::post-exc:{k}", "post", outside(f"post-exc:{k}", truthy(it.eval_spec(cl, env, olds))), detail=cl)
+                path.oblige(f"{short}::post-exc:{k}", "post", outside(f"post-exc:{k}", _clause_value(it, cl, env, olds)), detail=cl)
         else:
             for k, cl in c.ensures.items():
                 it.cover_ctx = f"{short}::post:{k}"
-                path.oblige(f"{short}::post:{k}", "post", outside(f"post:{k}", truthy(it.eval_spec(cl, env, olds))), detail=cl)
+                path.oblige(f"{short}::post:{k}", "post", outside(f"post:{k}", _clause_value(it, cl, env, olds)), detail=cl)
         it.cover_ctx = None
         path.completed = True
 
@@ -229,6 +229,15 @@ def verify_contract(reg: Registry, c: Contract, cfg: Config) -> FunctionReport:
         rep.reason = "vacuity guard: no path reached the end of the function (contradictory requires?)"
     rep.wall_s = time.time() - t0
     return rep
+
+
+def _clause_value(it, clause, env, olds):
+    """Truth value of a post clause in the final state. A clause whose evaluation raises (a key it speaks about is missing, an attribute does not exist) does not hold there."""
+    try:
+        return truthy(it.eval_spec(clause, env, olds))
+    except PyExc as e:
+        it.path.notes.append(f"clause undefined in the final state ({e.exc.cls.name}{_args_repr(e.exc)}): counted as violated")
+        return False
 
 
 def _args_repr(exc: VObj):
